@@ -12,20 +12,25 @@ fn ret(e: Expr) -> Stmt {
 const CHARS: [&str; 4] = ["a", "\u{e9}", "\u{20ac}", "\u{1f600}"];
 
 /// (description, prelude, iterable expression, element kind is string?)
+/// set by the thorough tier of C18 itself: longer sequences, wider range bounds, longer strings
+static DEEP: std::sync::atomic::AtomicBool = std::sync::atomic::AtomicBool::new(false);
+
 fn iterables(thorough: bool) -> Vec<(String, Vec<Stmt>, Expr, bool)> {
+    let deep = DEEP.load(std::sync::atomic::Ordering::Relaxed);
     let mut v = Vec::new();
-    for len in 0..=3usize {
+    for len in 0..=(if deep { 5usize } else { 3usize }) {
         let items: Vec<Expr> = (0..len).map(|i| num((i as f64 + 1.0) * 10.0)).collect();
         v.push((format!("vec{}", len), vec![], Expr::VecLit(items.clone()), false));
         v.push((format!("tuple{}", len), vec![], Expr::TupleLit(items), false));
     }
-    for b in -2..=3i32 {
-        for e in -2..=3i32 {
+    let (lo, hi) = if deep { (-3i32, 4i32) } else { (-2i32, 3i32) };
+    for b in lo..=hi {
+        for e in lo..=hi {
             v.push((format!("range {}..{}", b, e), vec![], Expr::Paren(Box::new(bin(BinOp::Range, num(b as f64), num(e as f64)))), false));
         }
     }
     // strings over the 1-4 byte alphabet
-    let max = if thorough { 3 } else { 2 };
+    let max = if deep { 4 } else if thorough { 3 } else { 2 };
     let mut strings = vec![String::new()];
     let mut frontier = vec![String::new()];
     for _ in 0..max {
@@ -440,7 +445,12 @@ pub fn cases_for_c04(thorough: bool) -> Vec<Case> {
 
 pub fn run(ctx: &Ctx) -> Report {
     let mut report = Report::new();
-    let thorough = ctx.thorough();
+    // the quick tier runs what used to be the thorough bounds (it takes five seconds); the thorough tier
+    // lengthens every sequence, widens the range bounds and lengthens the strings
+    if ctx.thorough() {
+        DEEP.store(true, std::sync::atomic::Ordering::Relaxed);
+    }
+    let thorough = true;
     let cases = i1(thorough).into_iter().chain(i1_extreme_ranges()).chain(i2(thorough)).chain(i3(thorough)).chain(i4()).chain(i5()).chain(i6());
     let hooks = Hooks { attribute: &|_c, _m, _o, _mm| None, nontrivial: &|_c, m| m.out.len() >= 2 || matches!(m.outcome, Outcome::Uncaught(_)), fuel: 2_000_000 };
     let stats = mcheck::run(ctx, cases, &hooks);
@@ -448,7 +458,7 @@ pub fn run(ctx: &Ctx) -> Report {
         &mut report,
         &stats,
         "I1: a for loop over every vec/tuple of length 0-3, every range b..e with b,e in [-2,3], every string of up to 2/3 characters over a 1-4-byte alphabet, and user-defined iterables (an iterator: normal, early stop; an iterator whose iter() starts over; a collection whose iter() makes a new cursor object; a plain instance offering iter and next through fields; an iterator whose next method is shadowed by a field); and 16 ranges with end points at or beyond the largest machine integers, left by break; I2: break/continue/return at each element position, nested loops over one iterable, one shared iterator; I3: every map/filter chain up to depth 2/3 with callbacks {identity, transform, predicate, always false, throwing on the second call}, reduce, collect, bad callbacks - on user-defined iterables both through iter() and directly on the object, on a reused object and after a loop left by break; I4: non-iterables, broken protocols, StopIter subclass, exhausted iterators; I5: push/pop/set of a vec at each position during its own iteration; I6: every ordered pair of ranges with end points in [-2,3] used one after the other in one interpreter (printed, iterated, as index into a vec, a tuple and a string, compared), directly and with nine / seventy other ranges built in between, the first one used again after each. non-trivial = at least two lines or an error.",
-        json!({"sequence_length": 3, "string_chars": if thorough { 3 } else { 2 }, "adapter_depth": if thorough { 3 } else { 2 }}),
+        json!({"sequence_length": if ctx.thorough() { 5 } else { 3 }, "range_bounds": if ctx.thorough() { "-3..4" } else { "-2..3" }, "string_chars": if ctx.thorough() { 4 } else { 3 }, "adapter_depth": 3}),
     );
     report.assumptions = vec!["vec iteration is by cursor index into the live vec; `for` stops at an instance whose class is exactly StopIter (Appendix A)".into()];
     report.violations = stats.violations;
